@@ -679,17 +679,22 @@ int32_t jls_core_utc(struct jls_core_s * self, uint16_t signal_id, int64_t sampl
     struct jls_signal_def_s * signal_def = &self->signal_info[signal_id].signal_def;
     const int64_t sample_id_offset = signal_def->sample_id_offset;
     sample_id += sample_id_offset;
+    // Entries that no index chunk holds yet (a file that was not closed normally)
+    // are reached through the list of their DATA chunks.
+    bool is_tail = false;
+    struct jls_chunk_header_s hdr;
     int32_t rv = jls_core_ts_seek(self, signal_id, 1, JLS_TRACK_TYPE_UTC, sample_id);
     if (rv == JLS_ERROR_NOT_FOUND) {
-        return 0;  // no utc entries, and that's just fine
+        // no index: no utc entries, or only entries that are not indexed yet
+        hdr.item_next = self->signal_info[signal_id].tracks[JLS_TRACK_TYPE_UTC].head_offsets[0];
+        is_tail = true;
     } else if (rv) {
         return rv;
+    } else {
+        hdr.item_next = jls_raw_chunk_tell(self->raw);
     }
 
     // iterate
-    struct jls_chunk_header_s hdr;
-    hdr.item_next = jls_raw_chunk_tell(self->raw);
-
     while (hdr.item_next) {
         ROE(jls_raw_chunk_seek(self->raw, hdr.item_next));
         ROE(jls_raw_rd_header(self->raw, &hdr));
@@ -700,13 +705,22 @@ int32_t jls_core_utc(struct jls_core_s * self, uint16_t signal_id, int64_t sampl
                 .sample_id = utc_data->header.timestamp - sample_id_offset,
                 .timestamp = utc_data->timestamp,
             };
+            if (is_tail && (utc_data->header.timestamp < sample_id)) {
+                continue;
+            }
             if (cbk_fn(cbk_user_data, &entry, 1)) {
                 return 0;
             }
             continue;
         } else if (hdr.tag == JLS_TAG_TRACK_UTC_INDEX) {
-            ROE(jls_raw_chunk_next(self->raw));
-            ROE(jls_core_rd_chunk(self));
+            ROE(jls_core_rd_chunk(self));  // index
+            struct jls_index_s * index = (struct jls_index_s *) self->buf->start;
+            int64_t offset_last = 0;  // the DATA chunk of the last indexed entry
+            if ((0 == hdr.item_next) && index->header.entry_count
+                    && ((sizeof(index->header) + index->header.entry_count * sizeof(index->entries[0])) <= self->buf->length)) {
+                offset_last = index->entries[index->header.entry_count - 1].offset;
+            }
+            ROE(jls_core_rd_chunk(self));  // summary
             if (self->chunk_cur.hdr.tag != JLS_TAG_TRACK_UTC_SUMMARY) {
                 return JLS_ERROR_NOT_FOUND;
             }
@@ -722,6 +736,16 @@ int32_t jls_core_utc(struct jls_core_s * self, uint16_t signal_id, int64_t sampl
             if (size) {
                 if (cbk_fn(cbk_user_data, utc->entries + idx, size)) {
                     return 0;
+                }
+            }
+            if (offset_last) {
+                // last index chunk: continue with the DATA chunks that follow the last indexed one
+                struct jls_chunk_header_s h_data;
+                if ((0 == jls_raw_chunk_seek(self->raw, offset_last))
+                        && (0 == jls_raw_rd_header(self->raw, &h_data))
+                        && (h_data.tag == JLS_TAG_TRACK_UTC_DATA)) {
+                    hdr.item_next = h_data.item_next;
+                    is_tail = true;
                 }
             }
         } else {
